@@ -129,10 +129,26 @@ def incomplete_rtu_header(d, g):
         return False
 
 
-def regions(framing, g, per_read, joined, d=REQ, warm=0, first_read_tail=None):
+def mei_rtu_size(data):
+    """the frame size the RTU framer derives for a function-code 0x2B response: object count at offset 7, then (id, length,
+    value) triples - None when the bytes present do not reach the end of that walk"""
+    if len(data) < 8:
+        return None
+    size, count = 8, data[7]
+    while count > 0:
+        if len(data) < size + 2:
+            return None
+        size += data[size + 1] + 2
+        count -= 1
+    return size + 2
+
+
+def regions(framing, g, per_read, joined, d=REQ, warm=0, first_read_tail=None, stream=b''):
     out = set()
-    if framing == 'rtu' and warm >= 1 and incomplete_rtu_header(d, g + (first_read_tail or b'')):
-        out.add('rtu-split-frame')
+    if framing == 'rtu' and d == RSP and len(g) >= 2 and g[1] == 0x2B and warm >= 1:
+        n = mei_rtu_size(stream)
+        if n is None or n > BOUND['rtu']:
+            out.add('rtu-mei-response-size-unbounded')
     if framing == 'rtu' and d == RSP and len(g) >= 4 and g[1] == 0x18 and (g[2] << 16) + g[3] + 6 > BOUND['rtu']:
         out.add('rtu-fifo-response-size-unbounded')
     if framing == 'ascii' and ascii_stray_colon(g):
@@ -196,7 +212,7 @@ def check(run, case):
     want = [mkey(framing, d, m) for m, _ in frames[cutoff:]]
     wantset = set(want)
     tail = [k for k in keys if k in wantset]
-    regs = regions(framing, g, per_read, joined, d, case.get('warm', 0), reads[0][len(g):] if joined else None)
+    regs = regions(framing, g, per_read, joined, d, case.get('warm', 0), reads[0][len(g):] if joined else None, b''.join(reads))
     for slug in regs:
         if slug == 'ascii-stray-colon':
             run.region('ascii-bad-lrc-blocks-forever')
@@ -231,8 +247,8 @@ def check(run, case):
     if 'binary-short-span-raises-every-call' in regs and 'error' in set(excs):
         run.known('binary-short-span-raises-every-call', "'{}' at the head of the buffer makes the binary framer raise struct.error on every later call", case)
         excused |= {'not-delivered-after-bound', 'backlog-unbounded'}
-    if 'rtu-split-frame' in regs and set(excs) & {'IndexError', 'KeyError', 'error'}:
-        run.known('rtu-split-frame', 'an incomplete RTU header makes isFrameReady raise and leaves a half-filled header: every later call raises KeyError and nothing is delivered', case)
+    if 'rtu-mei-response-size-unbounded' in regs and not excs:
+        run.known('rtu-mei-response-size-unbounded', 'a header with function code 0x2B whose object walk runs past 256 bytes makes the RTU client receiver wait for all of it: later frames pile up undelivered', case)
         excused |= {'not-delivered-after-bound', 'backlog-unbounded'}
     if 'rtu-fifo-response-size-unbounded' in regs and not excs:
         run.known('rtu-fifo-response-size-unbounded', 'a header with function code 0x18 makes the RTU client receiver wait for up to 16 MB: later frames pile up undelivered', case)
